@@ -441,6 +441,9 @@ def binop(x, st, op, a: V, b: V, node, inplace=False):
         return [(st, V("set", a.t | b.t))]
     if opn == "Div" and a.k == "mod" or a.k == "path":
         return [(st, V("path", fresh_name("path")))]
+    if "lib" in (a.k, b.k):
+        x.assumptions.add("arithmetic/path operators on library objects (datetime, pathlib) assumed total")
+        return [(st, V("lib", "binop"))]
     if x.mode == "frame" or "opq" in (a.k, b.k):
         x.note_opaque("binop " + opn)
         return [(st, vopq("bin"))]
@@ -498,7 +501,14 @@ def slice_(x, st, a: V, lo, hi, step, node):
             ch = x.const_of(hi) if hi is not None else (None,)
             if o.items is not None and cl is not None and ch is not None:
                 return [(st, x.alloc(st, HList(o.items[cl[0]:ch[0]])))]
-            return [(st, x.alloc(st, HList(None, o.elem if o.items is None else x._elem_kind(o.items))))]
+            n = HList(None, o.elem if o.items is None else x._elem_kind(o.items))
+            if o.items is None and all(b is None or b.k in ("int", "none", "bool") for b in (lo, hi)):
+                L = o.sym_len()
+                st.pc.append(L >= o.minlen)
+                l = _norm_slice_bound(lo, L, z3.IntVal(0))
+                h = _norm_slice_bound(hi, L, L)
+                n.length = z3.If(h > l, h - l, 0)
+            return [(st, x.alloc(st, n))]
     if a.k == "opq" or x.mode == "frame":
         return [(st, vopq("slice", a.tags))]
     raise OutOfReach(f"slice of {a.k} (line {node.lineno})")
@@ -564,10 +574,20 @@ def index(x, st, a: V, i: V, node):
                             s.pc.append(z3.Implies(idx == j, r.t == e.t))
                         return [(s, r)]
                     return x.check_v(st, z3.And(-n <= it, it < n), "IndexError", node, val)
+            if x.mode == "value" and o.items is None and i.k in ("int", "bool"):
+                it = x.as_int(i)
+                L = o.sym_len()
+                st.pc.append(L >= o.minlen)
+                idx = z3.If(it < 0, L + it, it)
+                if o.elem == "str":
+                    val = lambda s: [(s, vstr(z3.Select(o.sym_arr(), idx)))]
+                else:
+                    ek = o.elem
+                    val = lambda s: [(s, fresh(ek if ek in ("str", "int", "bool") else "opq", "el"))]
+                return x.check_v(st, z3.And(-L <= it, it < L), "IndexError", node, val)
             if x.mode == "value":
-                ek = o.elem if o.items is None else "opq"
                 return x.check_v(st, z3.Bool(fresh_name("idx_in_range")), "IndexError", node,
-                                 lambda s: [(s, fresh(ek if ek in ("str", "int", "bool") else "opq", "el"))])
+                                 lambda s: [(s, vopq("el"))])
             return [(st, vopq("el"))]
         if isinstance(o, HDict):
             c = x.const_of(i)
@@ -636,7 +656,7 @@ def setitem(x, st, a: V, i: V, v: V, node):
                 o.items = None
             return
         if isinstance(o, HList):
-            o.items = None
+            o.forget()
             return
     if a.k in ("opq", "smap", "sset") or x.mode == "frame":
         if a.k == "gref":
@@ -779,10 +799,7 @@ def getattr_(x, st, v: V, name: str, node):
         if f is not None:
             if f.k == "optfield":
                 isn = z3.Bool(f"ctx.{name}!isnone")
-                out = []
-                out.append((st.fork(isn), NONE))
-                out.append((st.fork(z3.Not(isn)), vstr(z3.String("ctx." + name))))
-                return out
+                return x.choices(st, [(isn, NONE), (z3.Not(isn), vstr(z3.String("ctx." + name)))])
             return [(st, f)]
         return [(st, V("func", ("ctxmethod", name))) if _is_ctx_method(name) else
                 (st, _ctx_unknown_field(x, st, name, node))]
@@ -794,6 +811,8 @@ def getattr_(x, st, v: V, name: str, node):
     if v.k == "opq":
         # attribute of an opaque object: a stable opaque child
         return [(st, V("opq", f"{v.t}.{name}", v.tags))]
+    if v.k == "lib":
+        return [(st, V("lib", f"{v.t}.{name}"))]
     if v.k == "none":
         if x.mode == "value":
             return x.check_v(st, z3.BoolVal(False), "AttributeError", node, lambda s: [(s, vopq())])
@@ -961,7 +980,7 @@ def match_group(x, st, m: V, args, node):
     g = info["groups"][i]
     if i in info["optional"]:
         isn = z3.Bool(fresh_name("grp_none"))
-        return [(st.fork(isn), NONE), (st.fork(z3.Not(isn)), g)]
+        return x.choices(st, [(isn, NONE), (z3.Not(isn), g)])
     return [(st, g)]
 
 
@@ -996,6 +1015,11 @@ def call(x, st, f: V, pos: list, kw: dict, node, chain):
         return call_type(x, st, f.t, pos, kw, node)
     if f.k == "opq":
         return call_opaque(x, st, f, pos, kw, node)
+    if f.k == "lib":
+        x.assumptions.add(f"library object method {f.t.split('.')[-1]} assumed total (datetime/dateparser/pathlib objects)")
+        if f.t.endswith(("strftime", "isoformat", "format")):
+            return [(st, fresh("str", "lib"))]
+        return [(st, V("lib", f.t + "()"))]
     if x.mode == "frame":
         return call_opaque(x, st, vopq("callee"), pos, kw, node)
     raise OutOfReach(f"call of {f.k}: {loader.norm(node)[:60]} (line {node.lineno})")
@@ -1240,7 +1264,8 @@ def call_type(x, st, tname, pos, kw, node):
     if tname in ("deque", "defaultdict"):
         return [(st, vopq(tname))]
     if tname == "Path":
-        return [(st, V("path", fresh_name("path")))]
+        x.assumptions.add("pathlib.Path construction/resolve assumed total")
+        return [(st, V("lib", "Path"))]
     if tname in EXC_NAMES:
         return [(st, V("exc", tname))]
     if tname == "Page":
@@ -1275,10 +1300,12 @@ def _len_of(x, st, v: V):
         o = st.heap[v.t]
         if getattr(o, "items", None) is not None:
             return z3.IntVal(len(o.items))
+        if isinstance(o, HList):
+            L = o.sym_len()
+            st.pc.append(L >= o.minlen)
+            return L
         L = z3.Int(fresh_name("len"))
         st.pc.append(L >= 0)
-        if getattr(o, "minlen", 0):
-            st.pc.append(L >= o.minlen)
         return L
     if v.k == "glist":
         base, app = v.t
@@ -1290,6 +1317,10 @@ def _len_of(x, st, v: V):
     if v.k in ("opq", "match_groups", "smap"):
         L = z3.Int("len!" + (v.t if isinstance(v.t, str) else fresh_name("x")))
         st.pc.append(L >= 0)
+        return L
+    if v.k == "bytes":
+        L = z3.Int(fresh_name("nbytes"))
+        st.pc.append(L >= z3.Length(v.t))
         return L
     return None
 
@@ -1323,6 +1354,8 @@ def call_builtin(x, st, name, pos, kw, node, chain):
                     x.check_v(st, z3.Bool(fresh_name("int_below_str_digit_limit")) if False else z3.BoolVal(True),
                               "ValueError", node, lambda s: [(s, vstr(t))])
             return [(st, vstr(t))]
+        if a0.k in ("ref", "tuple", "float", "lib", "opq", "set", "strlist"):
+            return [(st, fresh("str", "str"))]
         return [(st, fresh("str", "str"))]
     if name == "repr" or name == "format":
         return [(st, fresh("str", "repr"))]
@@ -1333,7 +1366,17 @@ def call_builtin(x, st, name, pos, kw, node, chain):
             return [(st, vint(x.as_int(a0)))]
         if a0.k == "str":
             ok = z3.InRe(a0.t, smt.RE_INT_OK())
-            return x.check_v(st, ok, "ValueError", node, lambda s: [(s, vint(smt.f_int(a0.t)))])
+
+            def val(s):
+                s.pc.append(z3.Implies(z3.Not(z3.Contains(a0.t, z3.StringVal("-"))), smt.f_int(a0.t) >= 0))
+                return [(s, vint(smt.f_int(a0.t)))]
+            # two obligations per site: grammar, and CPython's int<->str digit
+            # limit (sys.get_int_max_str_digits() == 4300 by default)
+            def after_grammar(s):
+                return x.check_v(s, z3.Length(a0.t) <= 4300, "ValueError", node, val,
+                                 watch={"operand_length": z3.IntToStr(z3.Length(a0.t))}, tag="digit-limit",
+                                 hints=["length-abstraction"])
+            return x.check_v(st, ok, "ValueError", node, after_grammar, watch={"operand": a0.t})
         if a0.k == "float":
             if x.mode == "value":
                 return x.check_v(st, z3.Bool("finite!" + a0.t), "OverflowError", node,
@@ -1517,7 +1560,7 @@ def call_method(x, st, recv: V, name: str, pos, kw, node, chain):
         if name == "get":
             has = smap_has(x, recv, pos[0])
             dflt = pos[1] if len(pos) > 1 else NONE
-            return [(st.fork(has), smap_get(x, st, recv, pos[0])), (st.fork(z3.Not(has)), dflt)]
+            return x.choices(st, [(has, smap_get(x, st, recv, pos[0])), (z3.Not(has), dflt)])
         if name == "items":
             return [(st, V("smap_items", recv))]
         if name == "keys":
@@ -1614,20 +1657,23 @@ def list_method(x, st, recv, o: HList, name, pos, kw, node):
     if name == "append":
         if o.items is not None:
             o.items.append(pos[0])
+        elif o.length is not None:
+            o.length = o.length + 1
+            o.arr = None
         return [(st, NONE)]
     if name == "extend":
         items = concrete_items(x, st, pos[0])
         if o.items is not None and items is not None:
             o.items.extend(items)
         else:
-            o.items = None
+            o.forget()
         return [(st, NONE)]
     if name == "pop":
         if o.items is not None and not pos:
             if o.items:
                 return [(st, o.items.pop())]
             return x.check_v(st, z3.BoolVal(False), "IndexError", node, lambda s: [(s, vopq())])
-        o.items = None if pos else o.items
+        (o.forget() if pos else None)
         ek = o.elem
         if x.mode == "value":
             return x.check_v(st, z3.Bool(fresh_name("nonempty")), "IndexError", node,
@@ -1637,7 +1683,7 @@ def list_method(x, st, recv, o: HList, name, pos, kw, node):
         if name == "clear":
             o.items = []
         else:
-            o.items = None
+            o.forget()
         if name == "remove" and x.mode == "value":
             return x.check_v(st, z3.Bool(fresh_name("present")), "ValueError", node, lambda s: [(s, NONE)])
         return [(st, NONE)]
@@ -1681,6 +1727,8 @@ def dict_method(x, st, recv, o: HDict, name, pos, kw, node):
 
 # ---------------------------------------------------------------- module functions
 
+LIB_STR_RESULT = {"mediawiki_langcodes.code_to_name", "mediawiki_langcodes.name_to_code"}
+
 TOTAL_STR_FNS = {
     "html.escape", "html.unescape", "urllib.parse.quote", "urllib.parse.quote_plus",
     "urllib.parse.unquote", "urllib.parse.unquote_plus", "re.escape",
@@ -1716,9 +1764,9 @@ def call_module_fn(x, st, name, pos, kw, node, chain):
                         "tempfile.", "functools.", "collections.", "importlib.", "pathlib.",
                         "urllib.", "html.", "unicodedata.", "typing.", "requests.")):
         x.assumptions.add(f"library call {name} assumed total and effect-free on tracked state")
-        if name.endswith(("strftime", "isoformat", "format_exception")):
+        if name.endswith(("strftime", "isoformat", "format_exception")) or name in LIB_STR_RESULT:
             return [(st, fresh("str", "lib"))]
-        return [(st, vopq("lib:" + name))]
+        return [(st, V("lib", name))]
     if name.startswith("pkg."):
         # from . import module ; module.fn(...)
         parts = name.split(".")
@@ -1772,10 +1820,7 @@ def call_re(x, st, fn, pos, kw, node, chain):
             regex_contracts.apply_sub(x, out_st, c[0], repl, src, r)
         return [(out_st, r)]
     if fn == "split":
-        lst = HList(None, "str")
-        lst.minlen = 1
-        r = x.alloc(st, lst)
-        return [(st, r)]
+        return [(st, x.alloc(st, HList(None, "str", 1)))]
     if fn == "finditer" or fn == "findall":
         return [(st, V("matchiter", (pos[0], pos[1] if len(pos) > 1 else None)))]
     if fn == "escape":
